@@ -64,14 +64,76 @@ fn mk(e: i32, m: u64, neg: bool) -> f64 {
 }
 
 // ------------------------------------------------------------------ (A1) whole days
+/// whole-day serial n = 2^e + k built from its IEEE-754 fields (value (2^52 + m) * 2^(e-52) with the low 52-e fraction bits zero),
+/// exponent symbolic: every n in 2^e_lo ..= min(2^(e_hi+1) - 1, 2958465). 1900 system.
+fn days_sym_1900(e_lo: i32, e_hi: i32) {
+    let e: i32 = kani::any();
+    kani::assume(e_lo <= e && e <= e_hi);
+    let m: u64 = kani::any();
+    kani::assume(m < (1u64 << 52));
+    let s = (52 - e) as u32;
+    kani::assume(m & ((1u64 << s) - 1) == 0);
+    let v = mk(e, m, false);
+    kani::assume(v <= 2958465.0);
+    let mant = (1u128 << 52) + m as u128;
+    let n = (mant >> s) as u64; // v == n
+    kani::cover!(n == 1);
+    kani::cover!(n == 59);
+    kani::cover!(n == 60);
+    kani::cover!(n == 61);
+    kani::cover!(n == 2958465);
+    let ms = ms_of(v, false);
+    // serial 1 is 1900-01-01 = 1899-12-30 + 2 days; from serial 61 (1900-03-01 = 1899-12-30 + 61 days) one day per unit;
+    // serial 60 is the fictitious 1900-02-29: no calendar date; all the property fixes is that it lies between its neighbours
+    if n == 60 {
+        assert!(60 * DAY_MS <= ms && ms <= 61 * DAY_MS);
+        return;
+    }
+    let days = if n >= 60 { n } else { n + 1 };
+    // ms == days * 86_400_000, stated on the common scale 2^s: days * 2^s = mant (+ 2^s below serial 60)
+    let days_scaled: u128 = if n >= 60 { mant } else { mant + (1u128 << s) };
+    assert!(days_scaled == (days as u128) << s);
+    assert!(ms >= 0 && (ms as u128) << s == days_scaled * 84375 * 1024);
+}
+/// the same for the 1904 system: serial 0 is 1904-01-01 = 1899-12-30 + 1462 days
+fn days_sym_1904(e_lo: i32, e_hi: i32) {
+    let e: i32 = kani::any();
+    kani::assume(e_lo <= e && e <= e_hi);
+    let m: u64 = kani::any();
+    kani::assume(m < (1u64 << 52));
+    let s = (52 - e) as u32;
+    kani::assume(m & ((1u64 << s) - 1) == 0);
+    let v = mk(e, m, false);
+    kani::assume(v <= 2958465.0);
+    let n = (((1u128 << 52) + m as u128) >> s) as u64;
+    kani::cover!(n == 1);
+    kani::cover!(n == 2958465);
+    let ms = ms_of(v, true);
+    // n + 1462 is a whole number below 2^53, hence a double; its fields are taken from a float addition and checked as integers
+    let fb = (v + 1462.0).to_bits();
+    let ef = ((fb >> 52) & 0x7ff) as i32 - 1023;
+    let mf = (1u128 << 52) + (fb & ((1u64 << 52) - 1)) as u128;
+    let sf = (52 - ef) as u32;
+    assert!(ef >= 10 && ef <= 21 && (fb >> 63) == 0);
+    assert!(mf == ((n + 1462) as u128) << sf);
+    assert!(ms >= 0 && (ms as u128) << sf == mf * 84375 * 1024);
+}
+/// serial 0 (not a normal double): 1899-12-31 in the 1900 system (one day before serial 1), 1904-01-01 in the 1904 system
+fn days_zero() {
+    assert!(ms_of(0.0, false) == DAY_MS);
+    assert!(ms_of(0.0, true) == 1462 * DAY_MS);
+}
+/// the same statements with the serial produced by an integer-to-float conversion (`n as f64`, the `Data::Int` path)
 fn whole_days_1900(lo: u32, hi: u32) {
     let n: u32 = kani::any();
     kani::assume(lo <= n && n <= hi);
     kani::cover!(n == lo);
     kani::cover!(n == hi);
     let ms = ms_of(n as f64, false);
-    // serial 1 is 1900-01-01 = 1899-12-30 + 2 days; from serial 61 (1900-03-01 = 1899-12-30 + 61 days) one day per unit;
-    // serial 60 is the fictitious 1900-02-29 (no expectation beyond lying between its neighbours: here the same offset as 59 + 1)
+    if n == 60 {
+        assert!(60 * DAY_MS <= ms && ms <= 61 * DAY_MS);
+        return;
+    }
     let days = if n >= 60 { n as i64 } else { n as i64 + 1 };
     assert!(ms == days * DAY_MS);
 }
@@ -81,38 +143,66 @@ fn whole_days_1904(lo: u32, hi: u32) {
     kani::cover!(n == lo);
     kani::cover!(n == hi);
     let ms = ms_of(n as f64, true);
-    // serial 0 is 1904-01-01 = 1899-12-30 + 1462 days
     assert!(ms == (n as i64 + 1462) * DAY_MS);
 }
 
 // ------------------------------------------------------------------ (A2) all f64 serials, rounding to the millisecond
-/// v in [2^e, 2^(e+1)), v < LAST_SERIAL, 1900 system: | ms - f * 86_400_000 | <= 1/2 + 1/16, f = v (+1 below 60) as real numbers.
-/// (1/2: rounding to the millisecond; 1/16 ms: allowance for binary64 rounding of the product and of `v + 1`. For whole-day v the
-/// right-hand side is an integer, so the bound implies equality.)
-fn tol_1900(e: i32) {
+/// every double v in [2^e_lo, 2^(e_hi+1)), v < LAST_SERIAL (exponent symbolic, all 2^52 fractions):
+///     | ms - (v + c) * 86_400_000 | <= 1/2 + 1/16 ms,   c = 1462 (1904 system) | 0 (1900 system, v >= 61) | 1 (1900 system, v < 60)
+/// (1900 system, 60 <= v < 61, the fictitious 1900-02-29: only 60 d <= ms <= 61 d.)
+/// (1/2: rounding to the millisecond; 1/16 ms: allowance for the binary64 rounding of the sum and of the product.) Proved in two
+/// integer steps that add up by the triangle inequality (1/2 + 1/32 + 0.0201 < 1/2 + 1/16):
+///   (B) the double f nearest to v + c -- taken from a float addition in the harness and checked here against exact integer
+///       arithmetic -- differs from v + c by at most 2^-32 day = 0.0201 ms;
+///   (A) | ms - f * 86_400_000 | <= 1/2 + 1/32 ms, f * 86_400_000 being the exact rational mantissa(f) * 84375 * 2^10 / 2^sf.
+/// For whole-day v both sides are integers, so the bound implies equality.
+fn tol_sym(e_lo: i32, e_hi: i32, is_1904: bool) {
+    let e: i32 = kani::any();
+    kani::assume(e_lo <= e && e <= e_hi);
     let m: u64 = kani::any();
     kani::assume(m < (1u64 << 52));
     let v = mk(e, m, false);
     kani::assume(v < LAST_SERIAL);
-    kani::cover!(m == 0);
-    let ms = ms_of(v, false);
-    let s = (52 - e) as u32; // v = mant / 2^s
+    kani::cover!(m == 0 && e == e_lo);
+    kani::cover!(m == 1 && e == e_hi);
+    let ms = ms_of(v, is_1904);
+    if !is_1904 && 60.0 <= v && v < 61.0 {
+        // the fictitious 1900-02-29: only "between serial 59.999.. (offset 61 days - 0) and serial 61 (offset 61 days)" can be
+        // demanded, and that is the monotonicity obligation; here merely: not before 1900-02-28T00:00, not after 1900-03-01T00:00
+        assert!(60 * DAY_MS <= ms && ms <= 61 * DAY_MS);
+        return;
+    }
+    let c: u128 = if is_1904 { 1462 } else if v >= 60.0 { 0 } else { 1 };
+    let f = if is_1904 { v + 1462.0 } else if v >= 60.0 { v } else { v + 1.0 };
+    let fb = f.to_bits();
+    let ef = ((fb >> 52) & 0x7ff) as i32 - 1023;
+    let mf = (1u128 << 52) + (fb & ((1u64 << 52) - 1)) as u128;
+    assert!((fb >> 63) == 0 && ef >= e && ef <= 21 && ef >= 0);
+    let sv = (52 - e) as u32; // v = mant / 2^sv
+    let sf = (52 - ef) as u32; // f = mf / 2^sf
     let mant = (1u128 << 52) + m as u128;
-    let fnum: u128 = if v >= 60.0 { mant } else { mant + (1u128 << s) }; // f * 2^s
+    // (B) on the scale 2^sv
+    let fs = mf << (sv - sf);
+    let exact = mant + (c << sv);
+    let tolb: u128 = if sv >= 32 { 1u128 << (sv - 32) } else { 0 };
+    assert!(fs <= exact + tolb && exact <= fs + tolb);
+    // (A) on the scale 2^sf
     assert!(ms >= 0);
-    let lhs: u128 = (ms as u128) << s;
-    let rhs: u128 = fnum * 84375 * 1024;
-    let tol: u128 = (1u128 << (s - 1)) + (1u128 << (s - 4));
-    assert!(lhs <= rhs + tol && rhs <= lhs + tol);
+    let lhs: u128 = (ms as u128) << sf;
+    let rhs: u128 = mf * 84375 * 1024;
+    let tola: u128 = (1u128 << (sf - 1)) + (1u128 << (sf - 5));
+    assert!(lhs <= rhs + tola && rhs <= lhs + tola);
 }
-/// |v| < 2^-28 day (0.32 ms), zeros and subnormals included: serial 0, i.e. 1899-12-31T00:00:00.000 exactly
-fn tiny_1900() {
+/// |v| < 2^-28 day (0.32 ms), zeros and subnormals included: serial 0, i.e. 1899-12-31T00:00:00.000 / 1904-01-01T00:00:00.000 exactly
+fn tiny_serial() {
     let bits: u64 = kani::any();
     kani::assume(((bits >> 52) & 0x7ff) < (1023 - 28));
     let v = f64::from_bits(bits);
     kani::cover!(v == 0.0);
     kani::cover!(v < 0.0);
+    kani::cover!(v > 0.0);
     assert!(ms_of(v, false) == DAY_MS);
+    assert!(ms_of(v, true) == 1462 * DAY_MS);
 }
 /// 1904 system: same instant as the 1900-system serial v + 1462 (for every f64 whose shifted value is not below 60, NaN included)
 fn sys1904_link() {
@@ -121,9 +211,10 @@ fn sys1904_link() {
     kani::cover!(v == 0.0);
     assert!(ms_of(v, true) == ms_of(v + 1462.0, false));
 }
-/// 1900 system, any f64: the offset from 1899-12-30 is the duration ("serial times 24h") of the serial, shifted by one day below 60
+/// 1900 system, any f64 outside [60,61): the offset from 1899-12-30 is the duration ("serial times 24h") of the serial, shifted by one day below 60
 fn shim_link() {
     let v: f64 = kani::any();
+    kani::assume(!(60.0 <= v && v < 61.0)); // fictitious 1900-02-29: see the monotonicity obligation
     kani::cover!(v == 59.0);
     kani::cover!(v == 61.0);
     let f = if v >= 60.0 { v } else { v + 1.0 };
@@ -139,11 +230,17 @@ fn exact_lo(lo: u64, hi: u64) {
     kani::cover!(q == hi);
     let v = q as f64 * (1.0 / 1073741824.0);
     let ms = ms_of(v, false);
+    if (60u64 << 30) <= q && q < (61u64 << 30) {
+        assert!(60 * DAY_MS <= ms && ms <= 61 * DAY_MS); // fictitious 1900-02-29
+        return;
+    }
     let qq = if q >= (60u64 << 30) { q } else { q + (1u64 << 30) };
     assert!(ms as u64 == (qq * 84375 + (1 << 19)) >> 20 && ms >= 0);
 }
-/// v in [2^e, 2^(e+1)), 6 <= e <= 21, low 17 fraction bits zero: v = k36 * 2^(e-35), product = k36 * 84375 / 2^(25-e) exactly
-fn exact_hi(e: i32) {
+/// v in [2^e, 2^(e+1)), 6 <= e_lo <= e <= e_hi <= 21 (exponent symbolic), low 17 fraction bits zero: v = k36 * 2^(e-35), product = k36 * 84375 / 2^(25-e) exactly
+fn exact_hi(e_lo: i32, e_hi: i32) {
+    let e: i32 = kani::any();
+    kani::assume(e_lo <= e && e <= e_hi);
     let k: u64 = kani::any();
     kani::assume(k < (1u64 << 35));
     let v = mk(e, k << 17, false);
@@ -226,8 +323,31 @@ fn dur_whole_days(lo: u32, hi: u32) {
     let ms = dur_ms_of(v);
     assert!(ms == if neg { -(n as i64) * DAY_MS } else { n as i64 * DAY_MS });
 }
-/// |v| in [2^e, 2^(e+1)), either sign: | ms - v * 86_400_000 | <= 1/2 + 1/16
-fn dur_tol(e: i32) {
+/// whole-day durations +-n, n = 2^e + k built from IEEE-754 fields (exponent symbolic): exactly n * 24 h
+fn dur_days_sym(e_lo: i32, e_hi: i32) {
+    let e: i32 = kani::any();
+    kani::assume(e_lo <= e && e <= e_hi);
+    let m: u64 = kani::any();
+    kani::assume(m < (1u64 << 52));
+    let s = (52 - e) as u32;
+    kani::assume(m & ((1u64 << s) - 1) == 0);
+    let neg: bool = kani::any();
+    let v = mk(e, m, neg);
+    let mant = (1u128 << 52) + m as u128;
+    let n = (mant >> s) as i64; // |v| == n
+    kani::assume(n <= 2958465);
+    kani::cover!(n == 2958465 && neg);
+    kani::cover!(n == 1 && !neg);
+    let ms = dur_ms_of(v);
+    assert!(if neg { ms <= 0 } else { ms >= 0 });
+    // |ms| == n * 86_400_000 on the scale 2^s (n * 2^s = mant)
+    assert!(mant == (n as u128) << s);
+    assert!((ms.unsigned_abs() as u128) << s == mant * 84375 * 1024);
+}
+/// |v| in [2^e_lo, 2^(e_hi+1)) (exponent symbolic), either sign: | ms - v * 86_400_000 | <= 1/2 + 1/16
+fn dur_tol(e_lo: i32, e_hi: i32) {
+    let e: i32 = kani::any();
+    kani::assume(e_lo <= e && e <= e_hi);
     let m: u64 = kani::any();
     kani::assume(m < (1u64 << 52));
     let neg: bool = kani::any();
@@ -357,6 +477,36 @@ fn trait_plain_duration<D: DataType>(float_cell: D, int_cell: D) {
     assert!(int_cell.as_duration() == du);
 }
 
+fn trait_plain_datetime_all() {
+    let f: f64 = kani::any();
+    let i: i64 = kani::any();
+    let sel: u8 = kani::any();
+    kani::assume(sel < 4);
+    match sel {
+        0 => trait_plain_datetime(Data::Float(f), f.to_bits()),
+        1 => trait_plain_datetime(Data::Int(i), (i as f64).to_bits()),
+        2 => trait_plain_datetime(DataRef::Float(f), f.to_bits()),
+        _ => trait_plain_datetime(DataRef::Int(i), (i as f64).to_bits()),
+    }
+}
+fn trait_datetime_cell_all() {
+    let e = any_edt();
+    if kani::any() {
+        trait_datetime_cell(Data::DateTime(e), e)
+    } else {
+        trait_datetime_cell(DataRef::DateTime(e), e)
+    }
+}
+fn trait_plain_duration_all() {
+    let f: f64 = kani::any();
+    let i: i64 = kani::any();
+    if kani::any() {
+        trait_plain_duration(Data::Float(f), Data::Int(i))
+    } else {
+        trait_plain_duration(DataRef::Float(f), DataRef::Int(i))
+    }
+}
+
 // ------------------------------------------------------------------ (B) anchors on the real, unstubbed function
 fn anchor(v: f64, is_1904: bool, y: i32, mo: u32, d: u32, h: u32, mi: u32, s: u32, ms: u32) {
     let want = NaiveDate::from_ymd_opt(y, mo, d).unwrap().and_hms_milli_opt(h, mi, s, ms).unwrap();
@@ -415,478 +565,268 @@ fn civil_range(lo: u32, hi: u32) {
 // ===================== harness instantiations (one #[kani::proof] per registered obligation) =====================
 #[kani::proof]
 #[kani::stub(chrono::TimeDelta::milliseconds, rec_milliseconds)]
-fn days1900_e0() {
+fn days1900_all() {
+    days_sym_1900(0, 21);
+}
+#[kani::proof]
+#[kani::stub(chrono::TimeDelta::milliseconds, rec_milliseconds)]
+fn days1904_all() {
+    days_sym_1904(0, 21);
+}
+#[kani::proof]
+#[kani::stub(chrono::TimeDelta::milliseconds, rec_milliseconds)]
+fn days_serial_zero() {
+    days_zero();
+}
+#[kani::proof]
+#[kani::stub(chrono::TimeDelta::milliseconds, rec_milliseconds)]
+fn days1900_cast_e0() {
     whole_days_1900(0, 1);
 }
 #[kani::proof]
 #[kani::stub(chrono::TimeDelta::milliseconds, rec_milliseconds)]
-fn days1900_e1() {
+fn days1900_cast_e1() {
     whole_days_1900(2, 3);
 }
 #[kani::proof]
 #[kani::stub(chrono::TimeDelta::milliseconds, rec_milliseconds)]
-fn days1900_e2() {
+fn days1900_cast_e2() {
     whole_days_1900(4, 7);
 }
 #[kani::proof]
 #[kani::stub(chrono::TimeDelta::milliseconds, rec_milliseconds)]
-fn days1900_e3() {
+fn days1900_cast_e3() {
     whole_days_1900(8, 15);
 }
 #[kani::proof]
 #[kani::stub(chrono::TimeDelta::milliseconds, rec_milliseconds)]
-fn days1900_e4() {
+fn days1900_cast_e4() {
     whole_days_1900(16, 31);
 }
 #[kani::proof]
 #[kani::stub(chrono::TimeDelta::milliseconds, rec_milliseconds)]
-fn days1900_e5() {
+fn days1900_cast_e5() {
     whole_days_1900(32, 63);
 }
 #[kani::proof]
 #[kani::stub(chrono::TimeDelta::milliseconds, rec_milliseconds)]
-fn days1900_e6() {
+fn days1900_cast_e6() {
     whole_days_1900(64, 127);
 }
 #[kani::proof]
 #[kani::stub(chrono::TimeDelta::milliseconds, rec_milliseconds)]
-fn days1900_e7() {
+fn days1900_cast_e7() {
     whole_days_1900(128, 255);
 }
 #[kani::proof]
 #[kani::stub(chrono::TimeDelta::milliseconds, rec_milliseconds)]
-fn days1900_e8() {
+fn days1900_cast_e8() {
     whole_days_1900(256, 511);
 }
 #[kani::proof]
 #[kani::stub(chrono::TimeDelta::milliseconds, rec_milliseconds)]
-fn days1900_e9() {
+fn days1900_cast_e9() {
     whole_days_1900(512, 1023);
 }
 #[kani::proof]
 #[kani::stub(chrono::TimeDelta::milliseconds, rec_milliseconds)]
-fn days1900_e10() {
+fn days1900_cast_e10() {
     whole_days_1900(1024, 2047);
 }
 #[kani::proof]
 #[kani::stub(chrono::TimeDelta::milliseconds, rec_milliseconds)]
-fn days1900_e11() {
+fn days1900_cast_e11() {
     whole_days_1900(2048, 4095);
 }
 #[kani::proof]
 #[kani::stub(chrono::TimeDelta::milliseconds, rec_milliseconds)]
-fn days1900_e12() {
+fn days1900_cast_e12() {
     whole_days_1900(4096, 8191);
 }
 #[kani::proof]
 #[kani::stub(chrono::TimeDelta::milliseconds, rec_milliseconds)]
-fn days1900_e13() {
+fn days1900_cast_e13() {
     whole_days_1900(8192, 16383);
 }
 #[kani::proof]
 #[kani::stub(chrono::TimeDelta::milliseconds, rec_milliseconds)]
-fn days1900_e14() {
+fn days1900_cast_e14() {
     whole_days_1900(16384, 32767);
 }
 #[kani::proof]
 #[kani::stub(chrono::TimeDelta::milliseconds, rec_milliseconds)]
-fn days1900_e15() {
+fn days1900_cast_e15() {
     whole_days_1900(32768, 65535);
 }
 #[kani::proof]
 #[kani::stub(chrono::TimeDelta::milliseconds, rec_milliseconds)]
-fn days1900_e16() {
+fn days1900_cast_e16() {
     whole_days_1900(65536, 131071);
 }
 #[kani::proof]
 #[kani::stub(chrono::TimeDelta::milliseconds, rec_milliseconds)]
-fn days1900_e17() {
+fn days1900_cast_e17() {
     whole_days_1900(131072, 262143);
 }
 #[kani::proof]
 #[kani::stub(chrono::TimeDelta::milliseconds, rec_milliseconds)]
-fn days1900_e18() {
+fn days1900_cast_e18() {
     whole_days_1900(262144, 524287);
 }
 #[kani::proof]
 #[kani::stub(chrono::TimeDelta::milliseconds, rec_milliseconds)]
-fn days1900_e19() {
+fn days1900_cast_e19() {
     whole_days_1900(524288, 1048575);
 }
 #[kani::proof]
 #[kani::stub(chrono::TimeDelta::milliseconds, rec_milliseconds)]
-fn days1900_e20() {
+fn days1900_cast_e20() {
     whole_days_1900(1048576, 2097151);
 }
 #[kani::proof]
 #[kani::stub(chrono::TimeDelta::milliseconds, rec_milliseconds)]
-fn days1900_e21() {
+fn days1900_cast_e21() {
     whole_days_1900(2097152, 2958465);
 }
 #[kani::proof]
 #[kani::stub(chrono::TimeDelta::milliseconds, rec_milliseconds)]
-fn days1904_e0() {
+fn days1904_cast_e0() {
     whole_days_1904(0, 1);
 }
 #[kani::proof]
 #[kani::stub(chrono::TimeDelta::milliseconds, rec_milliseconds)]
-fn days1904_e1() {
+fn days1904_cast_e1() {
     whole_days_1904(2, 3);
 }
 #[kani::proof]
 #[kani::stub(chrono::TimeDelta::milliseconds, rec_milliseconds)]
-fn days1904_e2() {
+fn days1904_cast_e2() {
     whole_days_1904(4, 7);
 }
 #[kani::proof]
 #[kani::stub(chrono::TimeDelta::milliseconds, rec_milliseconds)]
-fn days1904_e3() {
+fn days1904_cast_e3() {
     whole_days_1904(8, 15);
 }
 #[kani::proof]
 #[kani::stub(chrono::TimeDelta::milliseconds, rec_milliseconds)]
-fn days1904_e4() {
+fn days1904_cast_e4() {
     whole_days_1904(16, 31);
 }
 #[kani::proof]
 #[kani::stub(chrono::TimeDelta::milliseconds, rec_milliseconds)]
-fn days1904_e5() {
+fn days1904_cast_e5() {
     whole_days_1904(32, 63);
 }
 #[kani::proof]
 #[kani::stub(chrono::TimeDelta::milliseconds, rec_milliseconds)]
-fn days1904_e6() {
+fn days1904_cast_e6() {
     whole_days_1904(64, 127);
 }
 #[kani::proof]
 #[kani::stub(chrono::TimeDelta::milliseconds, rec_milliseconds)]
-fn days1904_e7() {
+fn days1904_cast_e7() {
     whole_days_1904(128, 255);
 }
 #[kani::proof]
 #[kani::stub(chrono::TimeDelta::milliseconds, rec_milliseconds)]
-fn days1904_e8() {
+fn days1904_cast_e8() {
     whole_days_1904(256, 511);
 }
 #[kani::proof]
 #[kani::stub(chrono::TimeDelta::milliseconds, rec_milliseconds)]
-fn days1904_e9() {
+fn days1904_cast_e9() {
     whole_days_1904(512, 1023);
 }
 #[kani::proof]
 #[kani::stub(chrono::TimeDelta::milliseconds, rec_milliseconds)]
-fn days1904_e10() {
+fn days1904_cast_e10() {
     whole_days_1904(1024, 2047);
 }
 #[kani::proof]
 #[kani::stub(chrono::TimeDelta::milliseconds, rec_milliseconds)]
-fn days1904_e11() {
+fn days1904_cast_e11() {
     whole_days_1904(2048, 4095);
 }
 #[kani::proof]
 #[kani::stub(chrono::TimeDelta::milliseconds, rec_milliseconds)]
-fn days1904_e12() {
+fn days1904_cast_e12() {
     whole_days_1904(4096, 8191);
 }
 #[kani::proof]
 #[kani::stub(chrono::TimeDelta::milliseconds, rec_milliseconds)]
-fn days1904_e13() {
+fn days1904_cast_e13() {
     whole_days_1904(8192, 16383);
 }
 #[kani::proof]
 #[kani::stub(chrono::TimeDelta::milliseconds, rec_milliseconds)]
-fn days1904_e14() {
+fn days1904_cast_e14() {
     whole_days_1904(16384, 32767);
 }
 #[kani::proof]
 #[kani::stub(chrono::TimeDelta::milliseconds, rec_milliseconds)]
-fn days1904_e15() {
+fn days1904_cast_e15() {
     whole_days_1904(32768, 65535);
 }
 #[kani::proof]
 #[kani::stub(chrono::TimeDelta::milliseconds, rec_milliseconds)]
-fn days1904_e16() {
+fn days1904_cast_e16() {
     whole_days_1904(65536, 131071);
 }
 #[kani::proof]
 #[kani::stub(chrono::TimeDelta::milliseconds, rec_milliseconds)]
-fn days1904_e17() {
+fn days1904_cast_e17() {
     whole_days_1904(131072, 262143);
 }
 #[kani::proof]
 #[kani::stub(chrono::TimeDelta::milliseconds, rec_milliseconds)]
-fn days1904_e18() {
+fn days1904_cast_e18() {
     whole_days_1904(262144, 524287);
 }
 #[kani::proof]
 #[kani::stub(chrono::TimeDelta::milliseconds, rec_milliseconds)]
-fn days1904_e19() {
+fn days1904_cast_e19() {
     whole_days_1904(524288, 1048575);
 }
 #[kani::proof]
 #[kani::stub(chrono::TimeDelta::milliseconds, rec_milliseconds)]
-fn days1904_e20() {
+fn days1904_cast_e20() {
     whole_days_1904(1048576, 2097151);
 }
 #[kani::proof]
 #[kani::stub(chrono::TimeDelta::milliseconds, rec_milliseconds)]
-fn days1904_e21() {
+fn days1904_cast_e21() {
     whole_days_1904(2097152, 2958465);
 }
 #[kani::proof]
 #[kani::stub(chrono::TimeDelta::milliseconds, rec_milliseconds)]
-fn tol1900_em28() {
-    tol_1900(-28);
+fn tol1900_em28_em1() {
+    tol_sym(-28, -1, false);
 }
 #[kani::proof]
 #[kani::stub(chrono::TimeDelta::milliseconds, rec_milliseconds)]
-fn tol1900_em27() {
-    tol_1900(-27);
+fn tol1900_e0_e5() {
+    tol_sym(0, 5, false);
 }
 #[kani::proof]
 #[kani::stub(chrono::TimeDelta::milliseconds, rec_milliseconds)]
-fn tol1900_em26() {
-    tol_1900(-26);
+fn tol1900_e6_e21() {
+    tol_sym(6, 21, false);
 }
 #[kani::proof]
 #[kani::stub(chrono::TimeDelta::milliseconds, rec_milliseconds)]
-fn tol1900_em25() {
-    tol_1900(-25);
+fn tol1904_em28_e9() {
+    tol_sym(-28, 9, true);
 }
 #[kani::proof]
 #[kani::stub(chrono::TimeDelta::milliseconds, rec_milliseconds)]
-fn tol1900_em24() {
-    tol_1900(-24);
+fn tol1904_e10_e21() {
+    tol_sym(10, 21, true);
 }
 #[kani::proof]
 #[kani::stub(chrono::TimeDelta::milliseconds, rec_milliseconds)]
-fn tol1900_em23() {
-    tol_1900(-23);
-}
-#[kani::proof]
-#[kani::stub(chrono::TimeDelta::milliseconds, rec_milliseconds)]
-fn tol1900_em22() {
-    tol_1900(-22);
-}
-#[kani::proof]
-#[kani::stub(chrono::TimeDelta::milliseconds, rec_milliseconds)]
-fn tol1900_em21() {
-    tol_1900(-21);
-}
-#[kani::proof]
-#[kani::stub(chrono::TimeDelta::milliseconds, rec_milliseconds)]
-fn tol1900_em20() {
-    tol_1900(-20);
-}
-#[kani::proof]
-#[kani::stub(chrono::TimeDelta::milliseconds, rec_milliseconds)]
-fn tol1900_em19() {
-    tol_1900(-19);
-}
-#[kani::proof]
-#[kani::stub(chrono::TimeDelta::milliseconds, rec_milliseconds)]
-fn tol1900_em18() {
-    tol_1900(-18);
-}
-#[kani::proof]
-#[kani::stub(chrono::TimeDelta::milliseconds, rec_milliseconds)]
-fn tol1900_em17() {
-    tol_1900(-17);
-}
-#[kani::proof]
-#[kani::stub(chrono::TimeDelta::milliseconds, rec_milliseconds)]
-fn tol1900_em16() {
-    tol_1900(-16);
-}
-#[kani::proof]
-#[kani::stub(chrono::TimeDelta::milliseconds, rec_milliseconds)]
-fn tol1900_em15() {
-    tol_1900(-15);
-}
-#[kani::proof]
-#[kani::stub(chrono::TimeDelta::milliseconds, rec_milliseconds)]
-fn tol1900_em14() {
-    tol_1900(-14);
-}
-#[kani::proof]
-#[kani::stub(chrono::TimeDelta::milliseconds, rec_milliseconds)]
-fn tol1900_em13() {
-    tol_1900(-13);
-}
-#[kani::proof]
-#[kani::stub(chrono::TimeDelta::milliseconds, rec_milliseconds)]
-fn tol1900_em12() {
-    tol_1900(-12);
-}
-#[kani::proof]
-#[kani::stub(chrono::TimeDelta::milliseconds, rec_milliseconds)]
-fn tol1900_em11() {
-    tol_1900(-11);
-}
-#[kani::proof]
-#[kani::stub(chrono::TimeDelta::milliseconds, rec_milliseconds)]
-fn tol1900_em10() {
-    tol_1900(-10);
-}
-#[kani::proof]
-#[kani::stub(chrono::TimeDelta::milliseconds, rec_milliseconds)]
-fn tol1900_em9() {
-    tol_1900(-9);
-}
-#[kani::proof]
-#[kani::stub(chrono::TimeDelta::milliseconds, rec_milliseconds)]
-fn tol1900_em8() {
-    tol_1900(-8);
-}
-#[kani::proof]
-#[kani::stub(chrono::TimeDelta::milliseconds, rec_milliseconds)]
-fn tol1900_em7() {
-    tol_1900(-7);
-}
-#[kani::proof]
-#[kani::stub(chrono::TimeDelta::milliseconds, rec_milliseconds)]
-fn tol1900_em6() {
-    tol_1900(-6);
-}
-#[kani::proof]
-#[kani::stub(chrono::TimeDelta::milliseconds, rec_milliseconds)]
-fn tol1900_em5() {
-    tol_1900(-5);
-}
-#[kani::proof]
-#[kani::stub(chrono::TimeDelta::milliseconds, rec_milliseconds)]
-fn tol1900_em4() {
-    tol_1900(-4);
-}
-#[kani::proof]
-#[kani::stub(chrono::TimeDelta::milliseconds, rec_milliseconds)]
-fn tol1900_em3() {
-    tol_1900(-3);
-}
-#[kani::proof]
-#[kani::stub(chrono::TimeDelta::milliseconds, rec_milliseconds)]
-fn tol1900_em2() {
-    tol_1900(-2);
-}
-#[kani::proof]
-#[kani::stub(chrono::TimeDelta::milliseconds, rec_milliseconds)]
-fn tol1900_em1() {
-    tol_1900(-1);
-}
-#[kani::proof]
-#[kani::stub(chrono::TimeDelta::milliseconds, rec_milliseconds)]
-fn tol1900_e0() {
-    tol_1900(0);
-}
-#[kani::proof]
-#[kani::stub(chrono::TimeDelta::milliseconds, rec_milliseconds)]
-fn tol1900_e1() {
-    tol_1900(1);
-}
-#[kani::proof]
-#[kani::stub(chrono::TimeDelta::milliseconds, rec_milliseconds)]
-fn tol1900_e2() {
-    tol_1900(2);
-}
-#[kani::proof]
-#[kani::stub(chrono::TimeDelta::milliseconds, rec_milliseconds)]
-fn tol1900_e3() {
-    tol_1900(3);
-}
-#[kani::proof]
-#[kani::stub(chrono::TimeDelta::milliseconds, rec_milliseconds)]
-fn tol1900_e4() {
-    tol_1900(4);
-}
-#[kani::proof]
-#[kani::stub(chrono::TimeDelta::milliseconds, rec_milliseconds)]
-fn tol1900_e5() {
-    tol_1900(5);
-}
-#[kani::proof]
-#[kani::stub(chrono::TimeDelta::milliseconds, rec_milliseconds)]
-fn tol1900_e6() {
-    tol_1900(6);
-}
-#[kani::proof]
-#[kani::stub(chrono::TimeDelta::milliseconds, rec_milliseconds)]
-fn tol1900_e7() {
-    tol_1900(7);
-}
-#[kani::proof]
-#[kani::stub(chrono::TimeDelta::milliseconds, rec_milliseconds)]
-fn tol1900_e8() {
-    tol_1900(8);
-}
-#[kani::proof]
-#[kani::stub(chrono::TimeDelta::milliseconds, rec_milliseconds)]
-fn tol1900_e9() {
-    tol_1900(9);
-}
-#[kani::proof]
-#[kani::stub(chrono::TimeDelta::milliseconds, rec_milliseconds)]
-fn tol1900_e10() {
-    tol_1900(10);
-}
-#[kani::proof]
-#[kani::stub(chrono::TimeDelta::milliseconds, rec_milliseconds)]
-fn tol1900_e11() {
-    tol_1900(11);
-}
-#[kani::proof]
-#[kani::stub(chrono::TimeDelta::milliseconds, rec_milliseconds)]
-fn tol1900_e12() {
-    tol_1900(12);
-}
-#[kani::proof]
-#[kani::stub(chrono::TimeDelta::milliseconds, rec_milliseconds)]
-fn tol1900_e13() {
-    tol_1900(13);
-}
-#[kani::proof]
-#[kani::stub(chrono::TimeDelta::milliseconds, rec_milliseconds)]
-fn tol1900_e14() {
-    tol_1900(14);
-}
-#[kani::proof]
-#[kani::stub(chrono::TimeDelta::milliseconds, rec_milliseconds)]
-fn tol1900_e15() {
-    tol_1900(15);
-}
-#[kani::proof]
-#[kani::stub(chrono::TimeDelta::milliseconds, rec_milliseconds)]
-fn tol1900_e16() {
-    tol_1900(16);
-}
-#[kani::proof]
-#[kani::stub(chrono::TimeDelta::milliseconds, rec_milliseconds)]
-fn tol1900_e17() {
-    tol_1900(17);
-}
-#[kani::proof]
-#[kani::stub(chrono::TimeDelta::milliseconds, rec_milliseconds)]
-fn tol1900_e18() {
-    tol_1900(18);
-}
-#[kani::proof]
-#[kani::stub(chrono::TimeDelta::milliseconds, rec_milliseconds)]
-fn tol1900_e19() {
-    tol_1900(19);
-}
-#[kani::proof]
-#[kani::stub(chrono::TimeDelta::milliseconds, rec_milliseconds)]
-fn tol1900_e20() {
-    tol_1900(20);
-}
-#[kani::proof]
-#[kani::stub(chrono::TimeDelta::milliseconds, rec_milliseconds)]
-fn tol1900_e21() {
-    tol_1900(21);
-}
-#[kani::proof]
-#[kani::stub(chrono::TimeDelta::milliseconds, rec_milliseconds)]
-fn tol1900_tiny() {
-    tiny_1900();
+fn tol_tiny() {
+    tiny_serial();
 }
 #[kani::proof]
 #[kani::stub(chrono::TimeDelta::milliseconds, rec_milliseconds)]
@@ -900,48 +840,8 @@ fn datetime_offset_is_duration_of_shimmed_serial() {
 }
 #[kani::proof]
 #[kani::stub(chrono::TimeDelta::milliseconds, rec_milliseconds)]
-fn exact_lo_small() {
-    exact_lo(0, (1 << 12) - 1);
-}
-#[kani::proof]
-#[kani::stub(chrono::TimeDelta::milliseconds, rec_milliseconds)]
-fn exact_lo_q12() {
-    exact_lo(1 << 12, (1 << 13) - 1);
-}
-#[kani::proof]
-#[kani::stub(chrono::TimeDelta::milliseconds, rec_milliseconds)]
-fn exact_lo_q13() {
-    exact_lo(1 << 13, (1 << 14) - 1);
-}
-#[kani::proof]
-#[kani::stub(chrono::TimeDelta::milliseconds, rec_milliseconds)]
-fn exact_lo_q14() {
-    exact_lo(1 << 14, (1 << 15) - 1);
-}
-#[kani::proof]
-#[kani::stub(chrono::TimeDelta::milliseconds, rec_milliseconds)]
-fn exact_lo_q15() {
-    exact_lo(1 << 15, (1 << 16) - 1);
-}
-#[kani::proof]
-#[kani::stub(chrono::TimeDelta::milliseconds, rec_milliseconds)]
-fn exact_lo_q16() {
-    exact_lo(1 << 16, (1 << 17) - 1);
-}
-#[kani::proof]
-#[kani::stub(chrono::TimeDelta::milliseconds, rec_milliseconds)]
-fn exact_lo_q17() {
-    exact_lo(1 << 17, (1 << 18) - 1);
-}
-#[kani::proof]
-#[kani::stub(chrono::TimeDelta::milliseconds, rec_milliseconds)]
-fn exact_lo_q18() {
-    exact_lo(1 << 18, (1 << 19) - 1);
-}
-#[kani::proof]
-#[kani::stub(chrono::TimeDelta::milliseconds, rec_milliseconds)]
-fn exact_lo_q19() {
-    exact_lo(1 << 19, (1 << 20) - 1);
+fn exact_hi_all() {
+    exact_hi(6, 21);
 }
 #[kani::proof]
 #[kani::stub(chrono::TimeDelta::milliseconds, rec_milliseconds)]
@@ -1024,86 +924,6 @@ fn exact_lo_q35() {
     exact_lo(1 << 35, (1 << 36) - 1);
 }
 #[kani::proof]
-#[kani::stub(chrono::TimeDelta::milliseconds, rec_milliseconds)]
-fn exact_hi_e6() {
-    exact_hi(6);
-}
-#[kani::proof]
-#[kani::stub(chrono::TimeDelta::milliseconds, rec_milliseconds)]
-fn exact_hi_e7() {
-    exact_hi(7);
-}
-#[kani::proof]
-#[kani::stub(chrono::TimeDelta::milliseconds, rec_milliseconds)]
-fn exact_hi_e8() {
-    exact_hi(8);
-}
-#[kani::proof]
-#[kani::stub(chrono::TimeDelta::milliseconds, rec_milliseconds)]
-fn exact_hi_e9() {
-    exact_hi(9);
-}
-#[kani::proof]
-#[kani::stub(chrono::TimeDelta::milliseconds, rec_milliseconds)]
-fn exact_hi_e10() {
-    exact_hi(10);
-}
-#[kani::proof]
-#[kani::stub(chrono::TimeDelta::milliseconds, rec_milliseconds)]
-fn exact_hi_e11() {
-    exact_hi(11);
-}
-#[kani::proof]
-#[kani::stub(chrono::TimeDelta::milliseconds, rec_milliseconds)]
-fn exact_hi_e12() {
-    exact_hi(12);
-}
-#[kani::proof]
-#[kani::stub(chrono::TimeDelta::milliseconds, rec_milliseconds)]
-fn exact_hi_e13() {
-    exact_hi(13);
-}
-#[kani::proof]
-#[kani::stub(chrono::TimeDelta::milliseconds, rec_milliseconds)]
-fn exact_hi_e14() {
-    exact_hi(14);
-}
-#[kani::proof]
-#[kani::stub(chrono::TimeDelta::milliseconds, rec_milliseconds)]
-fn exact_hi_e15() {
-    exact_hi(15);
-}
-#[kani::proof]
-#[kani::stub(chrono::TimeDelta::milliseconds, rec_milliseconds)]
-fn exact_hi_e16() {
-    exact_hi(16);
-}
-#[kani::proof]
-#[kani::stub(chrono::TimeDelta::milliseconds, rec_milliseconds)]
-fn exact_hi_e17() {
-    exact_hi(17);
-}
-#[kani::proof]
-#[kani::stub(chrono::TimeDelta::milliseconds, rec_milliseconds)]
-fn exact_hi_e18() {
-    exact_hi(18);
-}
-#[kani::proof]
-#[kani::stub(chrono::TimeDelta::milliseconds, rec_milliseconds)]
-fn exact_hi_e19() {
-    exact_hi(19);
-}
-#[kani::proof]
-#[kani::stub(chrono::TimeDelta::milliseconds, rec_milliseconds)]
-fn exact_hi_e20() {
-    exact_hi(20);
-}
-#[kani::proof]
-#[kani::stub(chrono::TimeDelta::milliseconds, rec_milliseconds)]
-fn exact_hi_e21() {
-    exact_hi(21);
-}
-#[kani::proof]
 fn as_datetime_total_any_f64() {
     total_datetime(false);
 }
@@ -1138,12 +958,12 @@ fn monotone_quarter_grid_0_100() {
 }
 #[kani::proof]
 #[kani::stub(chrono::TimeDelta::milliseconds, rec_milliseconds)]
-fn monotone_quarter_grid_0_100_outside_59_61() {
+fn monotone_outside_59_61_quarter_grid_0_100() {
     mono_grid(4, 0, 400, true);
 }
 #[kani::proof]
 #[kani::stub(chrono::TimeDelta::milliseconds, rec_milliseconds)]
-fn monotone_1024_grid_0_128_outside_59_61() {
+fn monotone_outside_59_61_1024_grid_0_128() {
     mono_grid(1024, 0, 128 * 1024 - 1, true);
 }
 #[kani::proof]
@@ -1153,53 +973,8 @@ fn monotone_quarter_grid_e9() {
 }
 #[kani::proof]
 #[kani::stub(chrono::TimeDelta::milliseconds, rec_milliseconds)]
-fn monotone_quarter_grid_e10() {
-    mono_grid(4, 1024, 2047, true);
-}
-#[kani::proof]
-#[kani::stub(chrono::TimeDelta::milliseconds, rec_milliseconds)]
-fn monotone_quarter_grid_e11() {
-    mono_grid(4, 2048, 4095, true);
-}
-#[kani::proof]
-#[kani::stub(chrono::TimeDelta::milliseconds, rec_milliseconds)]
-fn monotone_quarter_grid_e12() {
-    mono_grid(4, 4096, 8191, true);
-}
-#[kani::proof]
-#[kani::stub(chrono::TimeDelta::milliseconds, rec_milliseconds)]
-fn monotone_quarter_grid_e13() {
-    mono_grid(4, 8192, 16383, true);
-}
-#[kani::proof]
-#[kani::stub(chrono::TimeDelta::milliseconds, rec_milliseconds)]
-fn monotone_quarter_grid_e14() {
-    mono_grid(4, 16384, 32767, true);
-}
-#[kani::proof]
-#[kani::stub(chrono::TimeDelta::milliseconds, rec_milliseconds)]
 fn monotone_quarter_grid_e15() {
     mono_grid(4, 32768, 65535, true);
-}
-#[kani::proof]
-#[kani::stub(chrono::TimeDelta::milliseconds, rec_milliseconds)]
-fn monotone_quarter_grid_e16() {
-    mono_grid(4, 65536, 131071, true);
-}
-#[kani::proof]
-#[kani::stub(chrono::TimeDelta::milliseconds, rec_milliseconds)]
-fn monotone_quarter_grid_e17() {
-    mono_grid(4, 131072, 262143, true);
-}
-#[kani::proof]
-#[kani::stub(chrono::TimeDelta::milliseconds, rec_milliseconds)]
-fn monotone_quarter_grid_e18() {
-    mono_grid(4, 262144, 524287, true);
-}
-#[kani::proof]
-#[kani::stub(chrono::TimeDelta::milliseconds, rec_milliseconds)]
-fn monotone_quarter_grid_e19() {
-    mono_grid(4, 524288, 1048575, true);
 }
 #[kani::proof]
 #[kani::stub(chrono::TimeDelta::milliseconds, rec_milliseconds)]
@@ -1208,378 +983,18 @@ fn monotone_quarter_grid_e20() {
 }
 #[kani::proof]
 #[kani::stub(chrono::TimeDelta::milliseconds, rec_milliseconds)]
-fn monotone_quarter_grid_e21() {
-    mono_grid(4, 2097152, 4194303, true);
-}
-#[kani::proof]
-#[kani::stub(chrono::TimeDelta::milliseconds, rec_milliseconds)]
-fn monotone_quarter_grid_e22() {
-    mono_grid(4, 4194304, 8388607, true);
-}
-#[kani::proof]
-#[kani::stub(chrono::TimeDelta::milliseconds, rec_milliseconds)]
 fn monotone_quarter_grid_e23() {
     mono_grid(4, 8388608, 11833863, true);
 }
 #[kani::proof]
 #[kani::stub(chrono::TimeDelta::milliseconds, rec_milliseconds)]
-fn duration_days_e0() {
-    dur_whole_days(0, 1);
+fn duration_days_all() {
+    dur_days_sym(0, 21);
 }
 #[kani::proof]
 #[kani::stub(chrono::TimeDelta::milliseconds, rec_milliseconds)]
-fn duration_days_e1() {
-    dur_whole_days(2, 3);
-}
-#[kani::proof]
-#[kani::stub(chrono::TimeDelta::milliseconds, rec_milliseconds)]
-fn duration_days_e2() {
-    dur_whole_days(4, 7);
-}
-#[kani::proof]
-#[kani::stub(chrono::TimeDelta::milliseconds, rec_milliseconds)]
-fn duration_days_e3() {
-    dur_whole_days(8, 15);
-}
-#[kani::proof]
-#[kani::stub(chrono::TimeDelta::milliseconds, rec_milliseconds)]
-fn duration_days_e4() {
-    dur_whole_days(16, 31);
-}
-#[kani::proof]
-#[kani::stub(chrono::TimeDelta::milliseconds, rec_milliseconds)]
-fn duration_days_e5() {
-    dur_whole_days(32, 63);
-}
-#[kani::proof]
-#[kani::stub(chrono::TimeDelta::milliseconds, rec_milliseconds)]
-fn duration_days_e6() {
-    dur_whole_days(64, 127);
-}
-#[kani::proof]
-#[kani::stub(chrono::TimeDelta::milliseconds, rec_milliseconds)]
-fn duration_days_e7() {
-    dur_whole_days(128, 255);
-}
-#[kani::proof]
-#[kani::stub(chrono::TimeDelta::milliseconds, rec_milliseconds)]
-fn duration_days_e8() {
-    dur_whole_days(256, 511);
-}
-#[kani::proof]
-#[kani::stub(chrono::TimeDelta::milliseconds, rec_milliseconds)]
-fn duration_days_e9() {
-    dur_whole_days(512, 1023);
-}
-#[kani::proof]
-#[kani::stub(chrono::TimeDelta::milliseconds, rec_milliseconds)]
-fn duration_days_e10() {
-    dur_whole_days(1024, 2047);
-}
-#[kani::proof]
-#[kani::stub(chrono::TimeDelta::milliseconds, rec_milliseconds)]
-fn duration_days_e11() {
-    dur_whole_days(2048, 4095);
-}
-#[kani::proof]
-#[kani::stub(chrono::TimeDelta::milliseconds, rec_milliseconds)]
-fn duration_days_e12() {
-    dur_whole_days(4096, 8191);
-}
-#[kani::proof]
-#[kani::stub(chrono::TimeDelta::milliseconds, rec_milliseconds)]
-fn duration_days_e13() {
-    dur_whole_days(8192, 16383);
-}
-#[kani::proof]
-#[kani::stub(chrono::TimeDelta::milliseconds, rec_milliseconds)]
-fn duration_days_e14() {
-    dur_whole_days(16384, 32767);
-}
-#[kani::proof]
-#[kani::stub(chrono::TimeDelta::milliseconds, rec_milliseconds)]
-fn duration_days_e15() {
-    dur_whole_days(32768, 65535);
-}
-#[kani::proof]
-#[kani::stub(chrono::TimeDelta::milliseconds, rec_milliseconds)]
-fn duration_days_e16() {
-    dur_whole_days(65536, 131071);
-}
-#[kani::proof]
-#[kani::stub(chrono::TimeDelta::milliseconds, rec_milliseconds)]
-fn duration_days_e17() {
-    dur_whole_days(131072, 262143);
-}
-#[kani::proof]
-#[kani::stub(chrono::TimeDelta::milliseconds, rec_milliseconds)]
-fn duration_days_e18() {
-    dur_whole_days(262144, 524287);
-}
-#[kani::proof]
-#[kani::stub(chrono::TimeDelta::milliseconds, rec_milliseconds)]
-fn duration_days_e19() {
-    dur_whole_days(524288, 1048575);
-}
-#[kani::proof]
-#[kani::stub(chrono::TimeDelta::milliseconds, rec_milliseconds)]
-fn duration_days_e20() {
-    dur_whole_days(1048576, 2097151);
-}
-#[kani::proof]
-#[kani::stub(chrono::TimeDelta::milliseconds, rec_milliseconds)]
-fn duration_days_e21() {
-    dur_whole_days(2097152, 2958465);
-}
-#[kani::proof]
-#[kani::stub(chrono::TimeDelta::milliseconds, rec_milliseconds)]
-fn duration_tol_em28() {
-    dur_tol(-28);
-}
-#[kani::proof]
-#[kani::stub(chrono::TimeDelta::milliseconds, rec_milliseconds)]
-fn duration_tol_em27() {
-    dur_tol(-27);
-}
-#[kani::proof]
-#[kani::stub(chrono::TimeDelta::milliseconds, rec_milliseconds)]
-fn duration_tol_em26() {
-    dur_tol(-26);
-}
-#[kani::proof]
-#[kani::stub(chrono::TimeDelta::milliseconds, rec_milliseconds)]
-fn duration_tol_em25() {
-    dur_tol(-25);
-}
-#[kani::proof]
-#[kani::stub(chrono::TimeDelta::milliseconds, rec_milliseconds)]
-fn duration_tol_em24() {
-    dur_tol(-24);
-}
-#[kani::proof]
-#[kani::stub(chrono::TimeDelta::milliseconds, rec_milliseconds)]
-fn duration_tol_em23() {
-    dur_tol(-23);
-}
-#[kani::proof]
-#[kani::stub(chrono::TimeDelta::milliseconds, rec_milliseconds)]
-fn duration_tol_em22() {
-    dur_tol(-22);
-}
-#[kani::proof]
-#[kani::stub(chrono::TimeDelta::milliseconds, rec_milliseconds)]
-fn duration_tol_em21() {
-    dur_tol(-21);
-}
-#[kani::proof]
-#[kani::stub(chrono::TimeDelta::milliseconds, rec_milliseconds)]
-fn duration_tol_em20() {
-    dur_tol(-20);
-}
-#[kani::proof]
-#[kani::stub(chrono::TimeDelta::milliseconds, rec_milliseconds)]
-fn duration_tol_em19() {
-    dur_tol(-19);
-}
-#[kani::proof]
-#[kani::stub(chrono::TimeDelta::milliseconds, rec_milliseconds)]
-fn duration_tol_em18() {
-    dur_tol(-18);
-}
-#[kani::proof]
-#[kani::stub(chrono::TimeDelta::milliseconds, rec_milliseconds)]
-fn duration_tol_em17() {
-    dur_tol(-17);
-}
-#[kani::proof]
-#[kani::stub(chrono::TimeDelta::milliseconds, rec_milliseconds)]
-fn duration_tol_em16() {
-    dur_tol(-16);
-}
-#[kani::proof]
-#[kani::stub(chrono::TimeDelta::milliseconds, rec_milliseconds)]
-fn duration_tol_em15() {
-    dur_tol(-15);
-}
-#[kani::proof]
-#[kani::stub(chrono::TimeDelta::milliseconds, rec_milliseconds)]
-fn duration_tol_em14() {
-    dur_tol(-14);
-}
-#[kani::proof]
-#[kani::stub(chrono::TimeDelta::milliseconds, rec_milliseconds)]
-fn duration_tol_em13() {
-    dur_tol(-13);
-}
-#[kani::proof]
-#[kani::stub(chrono::TimeDelta::milliseconds, rec_milliseconds)]
-fn duration_tol_em12() {
-    dur_tol(-12);
-}
-#[kani::proof]
-#[kani::stub(chrono::TimeDelta::milliseconds, rec_milliseconds)]
-fn duration_tol_em11() {
-    dur_tol(-11);
-}
-#[kani::proof]
-#[kani::stub(chrono::TimeDelta::milliseconds, rec_milliseconds)]
-fn duration_tol_em10() {
-    dur_tol(-10);
-}
-#[kani::proof]
-#[kani::stub(chrono::TimeDelta::milliseconds, rec_milliseconds)]
-fn duration_tol_em9() {
-    dur_tol(-9);
-}
-#[kani::proof]
-#[kani::stub(chrono::TimeDelta::milliseconds, rec_milliseconds)]
-fn duration_tol_em8() {
-    dur_tol(-8);
-}
-#[kani::proof]
-#[kani::stub(chrono::TimeDelta::milliseconds, rec_milliseconds)]
-fn duration_tol_em7() {
-    dur_tol(-7);
-}
-#[kani::proof]
-#[kani::stub(chrono::TimeDelta::milliseconds, rec_milliseconds)]
-fn duration_tol_em6() {
-    dur_tol(-6);
-}
-#[kani::proof]
-#[kani::stub(chrono::TimeDelta::milliseconds, rec_milliseconds)]
-fn duration_tol_em5() {
-    dur_tol(-5);
-}
-#[kani::proof]
-#[kani::stub(chrono::TimeDelta::milliseconds, rec_milliseconds)]
-fn duration_tol_em4() {
-    dur_tol(-4);
-}
-#[kani::proof]
-#[kani::stub(chrono::TimeDelta::milliseconds, rec_milliseconds)]
-fn duration_tol_em3() {
-    dur_tol(-3);
-}
-#[kani::proof]
-#[kani::stub(chrono::TimeDelta::milliseconds, rec_milliseconds)]
-fn duration_tol_em2() {
-    dur_tol(-2);
-}
-#[kani::proof]
-#[kani::stub(chrono::TimeDelta::milliseconds, rec_milliseconds)]
-fn duration_tol_em1() {
-    dur_tol(-1);
-}
-#[kani::proof]
-#[kani::stub(chrono::TimeDelta::milliseconds, rec_milliseconds)]
-fn duration_tol_e0() {
-    dur_tol(0);
-}
-#[kani::proof]
-#[kani::stub(chrono::TimeDelta::milliseconds, rec_milliseconds)]
-fn duration_tol_e1() {
-    dur_tol(1);
-}
-#[kani::proof]
-#[kani::stub(chrono::TimeDelta::milliseconds, rec_milliseconds)]
-fn duration_tol_e2() {
-    dur_tol(2);
-}
-#[kani::proof]
-#[kani::stub(chrono::TimeDelta::milliseconds, rec_milliseconds)]
-fn duration_tol_e3() {
-    dur_tol(3);
-}
-#[kani::proof]
-#[kani::stub(chrono::TimeDelta::milliseconds, rec_milliseconds)]
-fn duration_tol_e4() {
-    dur_tol(4);
-}
-#[kani::proof]
-#[kani::stub(chrono::TimeDelta::milliseconds, rec_milliseconds)]
-fn duration_tol_e5() {
-    dur_tol(5);
-}
-#[kani::proof]
-#[kani::stub(chrono::TimeDelta::milliseconds, rec_milliseconds)]
-fn duration_tol_e6() {
-    dur_tol(6);
-}
-#[kani::proof]
-#[kani::stub(chrono::TimeDelta::milliseconds, rec_milliseconds)]
-fn duration_tol_e7() {
-    dur_tol(7);
-}
-#[kani::proof]
-#[kani::stub(chrono::TimeDelta::milliseconds, rec_milliseconds)]
-fn duration_tol_e8() {
-    dur_tol(8);
-}
-#[kani::proof]
-#[kani::stub(chrono::TimeDelta::milliseconds, rec_milliseconds)]
-fn duration_tol_e9() {
-    dur_tol(9);
-}
-#[kani::proof]
-#[kani::stub(chrono::TimeDelta::milliseconds, rec_milliseconds)]
-fn duration_tol_e10() {
-    dur_tol(10);
-}
-#[kani::proof]
-#[kani::stub(chrono::TimeDelta::milliseconds, rec_milliseconds)]
-fn duration_tol_e11() {
-    dur_tol(11);
-}
-#[kani::proof]
-#[kani::stub(chrono::TimeDelta::milliseconds, rec_milliseconds)]
-fn duration_tol_e12() {
-    dur_tol(12);
-}
-#[kani::proof]
-#[kani::stub(chrono::TimeDelta::milliseconds, rec_milliseconds)]
-fn duration_tol_e13() {
-    dur_tol(13);
-}
-#[kani::proof]
-#[kani::stub(chrono::TimeDelta::milliseconds, rec_milliseconds)]
-fn duration_tol_e14() {
-    dur_tol(14);
-}
-#[kani::proof]
-#[kani::stub(chrono::TimeDelta::milliseconds, rec_milliseconds)]
-fn duration_tol_e15() {
-    dur_tol(15);
-}
-#[kani::proof]
-#[kani::stub(chrono::TimeDelta::milliseconds, rec_milliseconds)]
-fn duration_tol_e16() {
-    dur_tol(16);
-}
-#[kani::proof]
-#[kani::stub(chrono::TimeDelta::milliseconds, rec_milliseconds)]
-fn duration_tol_e17() {
-    dur_tol(17);
-}
-#[kani::proof]
-#[kani::stub(chrono::TimeDelta::milliseconds, rec_milliseconds)]
-fn duration_tol_e18() {
-    dur_tol(18);
-}
-#[kani::proof]
-#[kani::stub(chrono::TimeDelta::milliseconds, rec_milliseconds)]
-fn duration_tol_e19() {
-    dur_tol(19);
-}
-#[kani::proof]
-#[kani::stub(chrono::TimeDelta::milliseconds, rec_milliseconds)]
-fn duration_tol_e20() {
-    dur_tol(20);
-}
-#[kani::proof]
-#[kani::stub(chrono::TimeDelta::milliseconds, rec_milliseconds)]
-fn duration_tol_e21() {
-    dur_tol(21);
+fn duration_tol_all() {
+    dur_tol(-28, 21);
 }
 #[kani::proof]
 #[kani::stub(chrono::TimeDelta::milliseconds, rec_milliseconds)]
@@ -1587,49 +1002,43 @@ fn duration_tol_tiny() {
     dur_tiny();
 }
 #[kani::proof]
-#[kani::stub(crate::datatype::ExcelDateTime::as_datetime, rec_as_datetime)]
-fn trait_data_float_datetime() {
-    let f: f64 = kani::any(); trait_plain_datetime(Data::Float(f), f.to_bits());
+#[kani::stub(chrono::TimeDelta::milliseconds, rec_milliseconds)]
+fn duration_days_cast_e0() {
+    dur_whole_days(0, 1);
+}
+#[kani::proof]
+#[kani::stub(chrono::TimeDelta::milliseconds, rec_milliseconds)]
+fn duration_days_cast_e5() {
+    dur_whole_days(32, 63);
+}
+#[kani::proof]
+#[kani::stub(chrono::TimeDelta::milliseconds, rec_milliseconds)]
+fn duration_days_cast_e15() {
+    dur_whole_days(32768, 65535);
+}
+#[kani::proof]
+#[kani::stub(chrono::TimeDelta::milliseconds, rec_milliseconds)]
+fn duration_days_cast_e21() {
+    dur_whole_days(2097152, 2958465);
 }
 #[kani::proof]
 #[kani::stub(crate::datatype::ExcelDateTime::as_datetime, rec_as_datetime)]
-fn trait_data_int_datetime() {
-    let i: i64 = kani::any(); trait_plain_datetime(Data::Int(i), (i as f64).to_bits());
-}
-#[kani::proof]
-#[kani::stub(crate::datatype::ExcelDateTime::as_datetime, rec_as_datetime)]
-#[kani::stub(crate::datatype::ExcelDateTime::as_duration, rec_as_duration)]
-fn trait_data_datetime_cell() {
-    let e = any_edt(); trait_datetime_cell(Data::DateTime(e), e);
-}
-#[kani::proof]
-#[kani::stub(crate::datatype::ExcelDateTime::as_duration, rec_as_duration)]
-fn trait_data_plain_duration() {
-    let f: f64 = kani::any(); let i: i64 = kani::any(); trait_plain_duration(Data::Float(f), Data::Int(i));
-}
-#[kani::proof]
-#[kani::stub(crate::datatype::ExcelDateTime::as_datetime, rec_as_datetime)]
-fn trait_dataref_float_datetime() {
-    let f: f64 = kani::any(); trait_plain_datetime(DataRef::Float(f), f.to_bits());
-}
-#[kani::proof]
-#[kani::stub(crate::datatype::ExcelDateTime::as_datetime, rec_as_datetime)]
-fn trait_dataref_int_datetime() {
-    let i: i64 = kani::any(); trait_plain_datetime(DataRef::Int(i), (i as f64).to_bits());
+fn trait_plain_cells_datetime() {
+    trait_plain_datetime_all();
 }
 #[kani::proof]
 #[kani::stub(crate::datatype::ExcelDateTime::as_datetime, rec_as_datetime)]
 #[kani::stub(crate::datatype::ExcelDateTime::as_duration, rec_as_duration)]
-fn trait_dataref_datetime_cell() {
-    let e = any_edt(); trait_datetime_cell(DataRef::DateTime(e), e);
+fn trait_datetime_cells() {
+    trait_datetime_cell_all();
 }
 #[kani::proof]
 #[kani::stub(crate::datatype::ExcelDateTime::as_duration, rec_as_duration)]
-fn trait_dataref_plain_duration() {
-    let f: f64 = kani::any(); let i: i64 = kani::any(); trait_plain_duration(DataRef::Float(f), DataRef::Int(i));
+fn trait_plain_cells_duration() {
+    trait_plain_duration_all();
 }
 #[kani::proof]
-fn anchors_1900_named() {
+fn anchors_1900() {
     anchor(0.0, false, 1899, 12, 31, 0, 0, 0, 0);
     anchor(1.0, false, 1900, 1, 1, 0, 0, 0, 0);
     anchor(2.0, false, 1900, 1, 2, 0, 0, 0, 0);
@@ -1643,9 +1052,6 @@ fn anchors_1900_named() {
     anchor(367.0, false, 1901, 1, 1, 0, 0, 0, 0);
     anchor(25569.0, false, 1970, 1, 1, 0, 0, 0, 0);
     anchor(2958465.0, false, 9999, 12, 31, 0, 0, 0, 0);
-}
-#[kani::proof]
-fn anchors_1900_cycle() {
     anchor(36525.0, false, 1999, 12, 31, 0, 0, 0, 0);
     anchor(36526.0, false, 2000, 1, 1, 0, 0, 0, 0);
     anchor(36585.0, false, 2000, 2, 29, 0, 0, 0, 0);
@@ -1658,14 +1064,13 @@ fn anchors_1900_cycle() {
     anchor(73110.0, false, 2100, 3, 1, 0, 0, 0, 0);
     anchor(109575.0, false, 2200, 1, 1, 0, 0, 0, 0);
     anchor(146158.0, false, 2300, 3, 1, 0, 0, 0, 0);
-    anchor(146158.0, false, 2300, 3, 1, 0, 0, 0, 0);
     anchor(693596.0, false, 3798, 12, 30, 0, 0, 0, 0);
     anchor(1521.0, false, 1904, 2, 29, 0, 0, 0, 0);
     anchor(1522.0, false, 1904, 3, 1, 0, 0, 0, 0);
     anchor(1523.0, false, 1904, 3, 2, 0, 0, 0, 0);
 }
 #[kani::proof]
-fn anchors_1904_named() {
+fn anchors_1904() {
     anchor(0.0, true, 1904, 1, 1, 0, 0, 0, 0);
     anchor(1.0, true, 1904, 1, 2, 0, 0, 0, 0);
     anchor(58.0, true, 1904, 2, 28, 0, 0, 0, 0);
@@ -1700,9 +1105,6 @@ fn anchors_time_of_day() {
     anchor(59.5, false, 1900, 2, 28, 12, 0, 0, 0);
     anchor(58.99999999537037, false, 1900, 2, 28, 0, 0, 0, 0);
     anchor(2958465.999999993, false, 9999, 12, 31, 23, 59, 59, 999);
-}
-#[kani::proof]
-fn anchors_time_of_day_1904() {
     anchor(0.5, true, 1904, 1, 1, 12, 0, 0, 0);
     anchor(0.00146484375, true, 1904, 1, 1, 0, 2, 6, 563);
     anchor(43000.00000000463, true, 2021, 9, 23, 0, 0, 0, 0);
@@ -1710,15 +1112,9 @@ fn anchors_time_of_day_1904() {
     anchor(43000.99999999537, true, 2021, 9, 24, 0, 0, 0, 0);
 }
 #[kani::proof]
-fn anchors_none() {
+fn anchors_none_components_duration() {
     anchor_none(1e20, false); anchor_none(1e20, true); anchor_none(f64::MAX, false); anchor_none(f64::INFINITY, false); anchor_none(1.0e8, false); anchor_none(-1.0e8, false); anchor_none(-1.0e10, true);
-}
-#[kani::proof]
-fn anchors_as_date_as_time() {
     check_anchors_components();
-}
-#[kani::proof]
-fn anchors_duration() {
     check_anchors_duration();
 }
 #[kani::proof]
@@ -1793,34 +1189,3 @@ fn civil_oracle_65536_69631() {
 fn civil_oracle_69632_73727() {
     civil_range(69632, 73727);
 }
-fn tol_1900_sym(e_lo: i32, e_hi: i32) {
-    let e: i32 = kani::any();
-    kani::assume(e_lo <= e && e <= e_hi);
-    tol_1900(e);
-}
-fn days_bits(e_lo: u32, e_hi: u32, is_1904: bool) {
-    let e: u32 = kani::any();
-    kani::assume(e_lo <= e && e <= e_hi);
-    let k: u32 = kani::any();
-    kani::assume(k < (1u32 << e));
-    let n: u32 = (1u32 << e) + k;
-    kani::assume(n <= 2958465);
-    let v = mk(e as i32, (k as u64) << (52 - e), false);
-    let ms = ms_of(v, is_1904);
-    let days = if is_1904 { n as i64 + 1462 } else if n >= 60 { n as i64 } else { n as i64 + 1 };
-    assert!(ms == days * DAY_MS);
-}
-macro_rules! yh { ($name:ident, $body:expr) => {
-#[kani::proof]
-#[kani::stub(chrono::TimeDelta::milliseconds, rec_milliseconds)]
-fn $name() { $body; }
-} }
-yh!(y_tol_0_4, tol_1900_sym(0, 4));
-yh!(y_tol_6_10, tol_1900_sym(6, 10));
-yh!(y_tol_m14_m1, tol_1900_sym(-14, -1));
-yh!(y_tol_6_21, tol_1900_sym(6, 21));
-yh!(y_days_bits_6_21, days_bits(6, 21, false));
-yh!(y_days_bits_0_5, days_bits(0, 5, false));
-yh!(y_days_bits_16_21, days_bits(16, 21, false));
-yh!(y_days04_bits_6_21, days_bits(6, 21, true));
-yh!(y_days04_bits_0_5, days_bits(0, 5, true));
